@@ -6,9 +6,11 @@ import (
 	"fmt"
 	"go/ast"
 	"go/constant"
+	"go/parser"
 	"go/token"
 	"go/types"
 	"math/big"
+	"sort"
 	"strconv"
 	"strings"
 
@@ -25,7 +27,7 @@ type F struct {
 	Lo       string
 	Hi       string
 	Body     func(term string) *F
-	seqs     []string
+	seqs     []SeqRef
 	seqsDone bool
 }
 
@@ -209,18 +211,19 @@ func (x *Exec) assumeG(st *State, guard string, f *F) {
 
 // instTerms: instantiate a positive forall over the given terms (plus the quantified formula itself)
 // seqsOf discovers which sequences the bound variable of a quantifier indexes (by evaluating the body with a probe variable)
-func (x *Exec) seqsOf(f *F) []string {
+func (x *Exec) seqsOf(f *F) []SeqRef {
 	if f.seqsDone {
 		return f.seqs
 	}
-	var got []string
-	saved := x.probe
+	var got []SeqRef
+	saved, savedVar := x.probe, x.probeVar
 	x.probe = &got
+	x.probeVar = f.Var + "?probe"
 	func() {
 		defer func() { recover() }()
 		render(f.Body(f.Var + "?probe"))
 	}()
-	x.probe = saved
+	x.probe, x.probeVar = saved, savedVar
 	f.seqsDone = true
 	f.seqs = got
 	return got
@@ -246,16 +249,44 @@ func (x *Exec) bodyLogged(st *State, f *F, t string) *F {
 	return b
 }
 
-func relevant(t IdxT, seqs []string) bool {
-	if len(seqs) == 0 || t.Seq == "" {
-		return true
-	}
-	for _, s := range seqs {
-		if s == t.Seq || strings.Contains(s, "?probe") {
-			return true
+// SeqRef: a quantifier body reads sequence Arr at absolute index Off + boundvar
+type SeqRef struct{ Arr, Off string }
+
+// candidates turns the path's (absolute index, sequence) pairs into values for the bound variable of f
+func (x *Exec) candidates(f *F, terms []IdxT) []string {
+	seqs := x.seqsOf(f)
+	seen := map[string]bool{}
+	var out []string
+	add := func(t string) {
+		if !seen[t] && !strings.Contains(t, "?probe") {
+			seen[t] = true
+			out = append(out, t)
 		}
 	}
-	return false
+	for _, it := range terms {
+		if it.Seq == "" {
+			continue
+		}
+		for _, s := range seqs {
+			if s.Arr == it.Seq || strings.Contains(s.Arr, "?probe") {
+				add(sSub(it.T, s.Off))
+			}
+		}
+	}
+	for _, it := range terms {
+		if it.Seq == "" || len(seqs) == 0 {
+			add(it.T)
+		}
+	}
+	// terms built from skolem constants (witnesses of the goal / of existential assumptions) first, shortest first
+	sort.SliceStable(out, func(i, j int) bool {
+		si, sj := strings.Contains(out[i], "sk."), strings.Contains(out[j], "sk.")
+		if si != sj {
+			return si
+		}
+		return false
+	})
+	return out
 }
 
 func (x *Exec) instantiate(f *F, terms []IdxT, depth int, out *[]string) {
@@ -281,31 +312,12 @@ func (x *Exec) instantiate(f *F, terms []IdxT, depth int, out *[]string) {
 			}
 			return
 		}
-		seqs := x.seqsOf(f)
 		n := 0
-		done := map[string]bool{}
-		// terms that index the same sequence first, wildcards after
-		var ordered []IdxT
-		for _, it := range terms {
-			if it.Seq != "" && relevant(it, seqs) {
-				ordered = append(ordered, it)
-			}
-		}
-		for _, it := range terms {
-			if it.Seq == "" || len(seqs) == 0 {
-				ordered = append(ordered, it)
-			}
-		}
-		for _, it := range ordered {
-			if done[it.T] {
-				continue
-			}
-			done[it.T] = true
+		for _, t := range x.candidates(f, terms) {
 			n++
-			if (depth == 0 && n > 16) || (depth == 1 && n > 10) {
+			if (depth == 0 && n > 24) || (depth == 1 && n > 14) {
 				break
 			}
-			t := it.T
 			var sub []string
 			x.instantiate(f.Body(t), terms, depth+1, &sub)
 			*out = append(*out, sImp(sAnd(sLe(f.Lo, t), sLt(t, f.Hi)), sAnd(sub...)))
@@ -408,17 +420,10 @@ func (x *Exec) proveNNF(fr *Frame, st *State, name, kind string, f *F, in ssa.In
 			x.emit(fr, s2, name, kind, atom(sOr(ds...)), in)
 			return
 		}
-		var cands []string
-		seen := map[string]bool{}
-		for _, it := range st.idx {
-			if !seen[it.T] {
-				seen[it.T] = true
-				cands = append(cands, it.T)
-			}
-		}
+		cands := x.candidates(f, x.extTerms(st.idx))
 		cands = append(cands, f.Lo, sSub(f.Hi, "1"))
-		if len(cands) > 14 {
-			cands = cands[:14]
+		if len(cands) > 24 {
+			cands = cands[:24]
 		}
 		for _, t := range cands {
 			ds = append(ds, sAnd(sLe(f.Lo, t), sLt(t, f.Hi), render(f.Body(t))))
@@ -557,12 +562,22 @@ func (e *SpecEnv) eval(n ast.Expr) Val {
 		i := e.eval(v.Index)
 		switch b.K {
 		case KSlice:
-			e.st.addIdxSeq(i.S, b.Arr)
+			e.st.addIdxSeq(sAdd(b.Off, i.S), b.Arr)
 			if e.x.idxLog != nil {
-				*e.x.idxLog = append(*e.x.idxLog, IdxT{i.S, b.Arr})
+				*e.x.idxLog = append(*e.x.idxLog, IdxT{sAdd(b.Off, i.S), b.Arr})
 			}
-			if e.x.probe != nil && strings.Contains(i.S, "?probe") {
-				*e.x.probe = append(*e.x.probe, b.Arr)
+			if e.x.probe != nil && strings.Contains(i.S, "?probe") && !strings.Contains(b.Off, "?probe") {
+				// index of the form (probe + delta): remember the base offset of the bound variable
+				delta := "0"
+				if i.S != e.x.probeVar {
+					delta = sSub(i.S, e.x.probeVar)
+					if strings.Contains(delta, "?probe") {
+						delta = ""
+					}
+				}
+				if delta != "" {
+					*e.x.probe = append(*e.x.probe, SeqRef{b.Arr, sAdd(b.Off, delta)})
+				}
 			}
 			return e.x.elemRead(e.st, b, i.S)
 		case KRef:
@@ -847,6 +862,9 @@ func (e *SpecEnv) call(c *ast.CallExpr) Val {
 		if sf := e.x.eng.cs.Specs["."+id.Name]; sf != nil {
 			return e.specFunc(sf, c.Args)
 		}
+		if lm := e.x.eng.findLemma(e.pkg, id.Name); lm != nil {
+			return e.lemmaInstance(lm, c.Args)
+		}
 		// package-level function of the current package
 		if fn := e.x.eng.findFunc(e.pkg + "." + id.Name); fn != nil {
 			var args []Val
@@ -989,8 +1007,35 @@ func (x *Exec) pureApp(fr *Frame, st *State, key string, con *Contract, sig *typ
 		}
 	}
 	// heap dependence
-	if con == nil || con.Opts["heap-independent"] == "" {
-		if fn != nil && fn.Blocks != nil {
+	if con != nil && con.Opts["reads"] != "" && con.Opts["reads"] != "heap" {
+		// declared read set: a list of types (struct type = all its fields, slice type = its elements)
+		for _, ts := range splitTop(con.Opts["reads"], ',') {
+			te, err := parser.ParseExpr(strings.TrimSpace(ts))
+			if err != nil {
+				panic(oos("bad reads option of %s: %v", key, err))
+			}
+			t := x.eng.resolveType(con.Pkg, te)
+			if t == nil {
+				panic(oos("cannot resolve type %s in reads option of %s", ts, key))
+			}
+			eff := newEffects()
+			switch u := t.Underlying().(type) {
+			case *types.Struct:
+				x.structEffect(eff, t)
+			case *types.Slice:
+				eff.keys[elemKey(u.Elem())] = u.Elem()
+			default:
+				panic(oos("reads option of %s: unsupported type %s", key, ts))
+			}
+			for _, k := range sortedKeys(eff.keys) {
+				ss, ts2 := x.materialize(st, k, eff.keys[k])
+				sorts = append(sorts, ss...)
+				terms = append(terms, ts2...)
+			}
+		}
+		x.note("declared read set of " + key + " is assumed: " + con.Opts["reads"])
+	} else if con == nil || con.Opts["heap-independent"] == "" {
+		if fn != nil && fn.Blocks != nil && (con == nil || !con.Trusted) {
 			rd := x.readsOf(fn, map[*ssa.Function]bool{})
 			if rd.all {
 				sorts = append(sorts, "Int")
@@ -1403,10 +1448,10 @@ func (e *SpecEnv) builtinSpec(name string, c *ast.CallExpr) (Val, bool) {
 		a := arg(0)
 		return intVal(sIte(sLe("0", a.S), a.S, sSub("0", a.S)), a.T), true
 	case "held":
-		a := arg(0)
+		a := e.evalAddr(c.Args[0])
 		return boolVal(e.st.heldW(lockKeyOf(a))), true
 	case "rheld":
-		a := arg(0)
+		a := e.evalAddr(c.Args[0])
 		return boolVal(e.st.heldR(lockKeyOf(a))), true
 	case "sameSlice":
 		a, b := arg(0), arg(1)
@@ -1470,4 +1515,70 @@ func (e *SpecEnv) builtinSpec(name string, c *ast.CallExpr) (Val, bool) {
 		return boolVal(sAnd(sNot(sEq(a.S, "0")), sEq("(iface.tag "+a.S+")", sInt(int64(id))))), true
 	}
 	return Val{}, false
+}
+
+// evalAddr evaluates an expression denoting a lock (a struct-valued field): the result is the sub-object reference
+func (e *SpecEnv) evalAddr(n ast.Expr) Val {
+	if p, ok := n.(*ast.ParenExpr); ok {
+		return e.evalAddr(p.X)
+	}
+	if u, ok := n.(*ast.UnaryExpr); ok && u.Op == token.AND {
+		return e.evalAddr(u.X)
+	}
+	sel, ok := n.(*ast.SelectorExpr)
+	if !ok {
+		return e.eval(n)
+	}
+	base := e.eval(sel.X)
+	if base.K != KRef {
+		sfail("lock expression %s: base is not a pointer", exprString(n))
+	}
+	pt, ok := base.T.Underlying().(*types.Pointer)
+	if !ok {
+		sfail("lock expression %s: base is not a pointer type", exprString(n))
+	}
+	stt, ok := pt.Elem().Underlying().(*types.Struct)
+	if !ok {
+		sfail("lock expression %s: not a struct", exprString(n))
+	}
+	for i := 0; i < stt.NumFields(); i++ {
+		if stt.Field(i).Name() == sel.Sel.Name {
+			a := e.x.fieldAddr(e.st, base.S, pt.Elem(), i)
+			if a.K == KRef {
+				return a
+			}
+			return e.x.loadAddr(e.st, a.A)
+		}
+	}
+	sfail("lock expression %s: no such field", exprString(n))
+	return Val{}
+}
+
+// lemmaInstance: (requires ==> ensures) of a lemma with its parameters bound to the arguments; valid because the lemma is proved on its own
+func (e *SpecEnv) lemmaInstance(lm *Contract, argExprs []ast.Expr) Val {
+	if len(argExprs) != len(lm.Params) {
+		sfail("lemma %s expects %d arguments", lm.Key, len(lm.Params))
+	}
+	names := map[string]Val{}
+	for i, p := range lm.Params {
+		names[p.Name] = e.eval(argExprs[i])
+	}
+	ne := &SpecEnv{x: e.x, fr: e.fr, st: e.st, old: e.old, names: names, pkg: lm.Pkg, depth: e.depth + 1}
+	saved := e.x.noWD
+	e.x.noWD = true
+	defer func() { e.x.noWD = saved }()
+	var pre, post []*F
+	for _, p := range lm.Pre {
+		if p.Let != "" {
+			ne.names[p.Let] = ne.eval(p.C.Expr)
+			continue
+		}
+		pre = append(pre, ne.evalBool(p.C.Expr).formula())
+	}
+	for _, en := range lm.Ensures {
+		post = append(post, ne.evalBool(en.Expr).formula())
+	}
+	lm.used = true
+	e.x.note("uses lemma " + lm.Key + " (proved separately)")
+	return bval(&F{Op: "imp", Kids: []*F{{Op: "and", Kids: pre}, {Op: "and", Kids: post}}})
 }
